@@ -245,6 +245,24 @@ def is_dictlike(ty: Ty):
 
 
 _box_funs = {}
+BOX_AXIOMS = {}       # facts about boxed scalars: non-null, truthiness preserved (R6)
+
+
+def _box_axioms(key, f, ty):
+    tr = z3.Function("truthy_any", z3.IntSort(), z3.BoolSort())
+    v = z3.Const("v!box", sort_of(ty))
+    if ty.kind == "bool":
+        t = v
+    elif ty.kind == "int":
+        t = v != 0
+    elif ty.kind in ("str", "bytes", "seq"):
+        t = z3.Length(v) > 0
+    elif ty.kind == "real":
+        t = v != 0
+    else:
+        return
+    BOX_AXIOMS[key] = z3.ForAll([v], z3.And(f(v) > 0, tr(f(v)) == t), patterns=[f(v)])
+
 
 
 def box(v: V) -> V:
@@ -261,6 +279,7 @@ def box(v: V) -> V:
             f = z3.Function("box_" + key.replace("[", "_").replace("]", "").replace(",", "_"),
                             sort_of(v.ty), z3.IntSort())
             _box_funs[key] = f
+            _box_axioms(key, f, v.ty)
         return V(ANY, f(v.t))
     if k == "opt":
         inner = box(v.val)
